@@ -13,8 +13,10 @@ RULE = ("inverse / abduce / abduce_with on conditional tables (vacuous, dogmatic
         "positive) and the observation are EXACTLY well-formed as rationals; |X|, |Y| <= 4, far below the sizes (9+ cells) at which the "
         "validators' own re-summation residue could leave the 4-ulp band. Streams: zero-biased small grids (denominators 4, 8, 16; "
         "|X|, |Y| in 2..3; random supports; absolute / vacuous / uncertain observations; zero entries in a_Y), 2500 per precision in the "
-        "quick tier, and the replay list gen/corpus/clamp_hot.txt (see C04). Uncertainty clauses on every inverted conditional: u <= uhat (largest value compatible with the posterior) and, outside the zero band, the SCALED bound u <= uhat * (w + Psi - w*Psi) with w = 1 when some conditional has min_y P(y|x)/a(y) > eps and w = 0 when every conditional excludes an outcome (clause u_scaled_bound; theorems C05_u_bound, C05_wprop_one, C05_wprop_char). non-trivial = value returned")
+        "quick tier, and the replay list gen/corpus/clamp_hot.txt (see C04). Uncertainty clauses on every inverted conditional: u <= uhat (largest value compatible with the posterior) and, outside the zero band, the SCALED bound u <= uhat * (w + Psi - w*Psi) with w = 1 when some conditional has min_y P(y|x)/a(y) > eps and w = 0 when every conditional excludes an outcome (clause u_scaled_bound; theorems C05_u_bound and, in SLV/Props/C05Scaled.lean, C05_wprop_zero_one, C05_phi_zero_one, C05_u_scaled). non-trivial = value returned")
 EXHAUSTIVE = {}
+# the closed form of the scaling factor used by the oracle clause u_scaled_bound (w in {0,1} outside the zero band)
+EXTRA_MODULES = [("SLV.Props.C05Scaled", ("C05_wprop_zero_one", "C05_wprop_one_of_exists", "C05_wprop_zero_of_forall", "C05_phi_zero_one", "C05_u_scaled"))]
 nontrivial = default_nontrivial
 LEVEL_TEXT = ("Theorems over the exact model: inverted conditionals are well-formed, their projection is the Bayes posterior, their "
               "uncertainty never exceeds the largest value compatible with it, irrelevant and zero-likelihood outcomes invert to the "
